@@ -1,7 +1,8 @@
 ---------------------------- MODULE LifeMon_Trace ----------------------------
 (* Trace validation (monitor) for C25 on a real tunnel session with injected failures.  Events:
      state_cb {cb: "a"|"b", state}      a registered connection-state callback was invoked
-     rx {kind, st} / tx {kind}          frames delivered to / sent by the client
+     rx {kind, st, chan} / tx {kind}    frames delivered to / sent by the client
+     lost                               the (TCP) connection was dropped by the network
      user_disc_ret                      the user's disconnect() returned
      end {max_rtasks, conn, chan}       final observation: most reconnect tasks alive at any loop iteration,
                                         connection_manager.connected flag, tunnel channel (-1 none) *)
@@ -9,32 +10,44 @@ EXTENDS Integers, Sequences, Json, IOUtils, TLC
 Traces == ndJsonDeserialize(IOEnv.TRACE_FILE)
 VARIABLES stA, stB,        \* last state reported to callback a / b
           estab,           \* an error-free ConnectResponse arrived since the last DISCONNECTED report
+          echan,           \* channel of the tunnel the server established last
           userDone,        \* disconnect() has returned
+          lossAt,          \* time at which the client was told that the tunnel is gone (DisconnectRequest, connection lost); -1: none
           tid, l
-vars == <<stA, stB, estab, userDone, tid, l>>
+vars == <<stA, stB, estab, echan, userDone, lossAt, tid, l>>
 Ev == Traces[tid][l]
-TInit == tid \in 1..Len(Traces) /\ l = 1 /\ stA = "INIT" /\ stB = "INIT" /\ estab = FALSE /\ userDone = FALSE
+TInit == tid \in 1..Len(Traces) /\ l = 1 /\ stA = "INIT" /\ stB = "INIT" /\ estab = FALSE /\ echan = -1 /\ userDone = FALSE /\ lossAt = -1
 StateCb ==
   /\ Ev.ev = "state_cb"
   /\ \/ /\ Ev.cb = "a" /\ stA = stB /\ Ev.state # stA /\ stA' = Ev.state /\ UNCHANGED stB    \* only real transitions
      \/ /\ Ev.cb = "b" /\ Ev.state = stA /\ Ev.state # stB /\ stB' = Ev.state /\ UNCHANGED stA  \* every callback once per change
   /\ (Ev.state = "CONNECTED" => estab)                      \* 'connected' only while a tunnel is established
   /\ (userDone => Ev.state = "DISCONNECTED")
-  /\ estab' = (IF Ev.state = "DISCONNECTED" THEN FALSE ELSE estab) /\ UNCHANGED userDone
+  /\ estab' = (IF Ev.state = "DISCONNECTED" THEN FALSE ELSE estab) /\ UNCHANGED <<userDone, echan>>
+  /\ lossAt' = (IF Ev.state = "DISCONNECTED" THEN -1 ELSE lossAt)
 Rx == /\ Ev.ev = "rx"
-      /\ estab' = (estab \/ (Ev.kind = "ConnectResponse" /\ Ev.st = 0))
+      /\ estab' = (IF Ev.kind = "ConnectResponse" /\ Ev.st = 0 THEN TRUE
+                   ELSE IF Ev.kind = "DisconnectRequest" /\ Ev.chan = echan THEN FALSE     \* the server ended this tunnel
+                   ELSE estab)
+      /\ echan' = (IF Ev.kind = "ConnectResponse" /\ Ev.st = 0 THEN Ev.chan ELSE echan)
+      /\ lossAt' = (IF Ev.kind = "ConnectResponse" /\ Ev.st = 0 THEN -1
+                    ELSE IF Ev.kind = "DisconnectRequest" /\ Ev.chan = echan /\ estab THEN Ev.t ELSE lossAt)
       /\ UNCHANGED <<stA, stB, userDone>>
-Tx == Ev.ev = "tx" /\ ~userDone /\ UNCHANGED <<stA, stB, estab, userDone>>      \* nothing is sent after the user disconnected
-UserRet == Ev.ev = "user_disc_ret" /\ userDone' = TRUE /\ UNCHANGED <<stA, stB, estab>>
+Lost == Ev.ev = "lost" /\ estab' = FALSE /\ lossAt' = (IF estab THEN Ev.t ELSE lossAt) /\ UNCHANGED <<stA, stB, userDone, echan>>   \* the connection under the tunnel is gone
+Tx == Ev.ev = "tx" /\ ~userDone /\ UNCHANGED <<stA, stB, estab, userDone, echan, lossAt>>      \* nothing is sent after the user disconnected
+UserRet == Ev.ev = "user_disc_ret" /\ userDone' = TRUE /\ UNCHANGED <<stA, stB, estab, echan, lossAt>>
 End == /\ Ev.ev = "end" /\ Ev.max_rtasks <= 1                                  \* at most one reconnect attempt at a time
        /\ stA = stB
        /\ (Ev.conn = 1) <=> (stA = "CONNECTED")
-       /\ (Ev.conn = 1) => Ev.chan # -1
+       /\ (Ev.conn = 1) => (Ev.chan # -1 /\ estab)          \* reads 'connected' only while a tunnel is established
        /\ userDone => (Ev.conn = 0 /\ Ev.rtasks = 0)
-       /\ UNCHANGED <<stA, stB, estab, userDone>>
-Other == Ev.ev \in {"up", "note"} /\ UNCHANGED <<stA, stB, estab, userDone>>
+       /\ UNCHANGED <<stA, stB, estab, userDone, echan, lossAt>>
+Other == Ev.ev \in {"up", "note"} /\ UNCHANGED <<stA, stB, estab, userDone, echan, lossAt>>
+(* once the client was told that its tunnel is gone, 'connected' is not read any more at a later instant *)
+Stale == lossAt # -1 /\ Ev.t > lossAt /\ stA = "CONNECTED" /\ ~estab
 Step == /\ l <= Len(Traces[tid]) /\ l' = l + 1 /\ UNCHANGED tid
-        /\ (StateCb \/ Rx \/ Tx \/ UserRet \/ End \/ Other)
+        /\ ~Stale
+        /\ (StateCb \/ Rx \/ Tx \/ UserRet \/ End \/ Other \/ Lost)
 TSpec == TInit /\ [][Step]_vars
 Mark == /\ TLCSet(2, [TLCGet(2) EXCEPT ![tid] = IF @ < l THEN l ELSE @])
         /\ (l = Len(Traces[tid]) + 1 => TLCSet(1, TLCGet(1) \cup {tid}))
